@@ -161,7 +161,11 @@ class Server:
         finally:
             current.status = "dead"
             # self.log("-disconnect: %s" % (clientid,))
-            sock.close()
-            if sock_file is not None:
-                sock_file.close()
-            handle_request.shutdown()
+            try:
+                sock.close()
+                if sock_file is not None:
+                    sock_file.close()
+            finally:
+                # closing flushes; on a connection reset by the peer that raises (EPIPE) -
+                # the jobs this client held must be re-queued all the same
+                handle_request.shutdown()
